@@ -430,6 +430,14 @@ def c20(ctx):
                 if rc != 0:
                     ctx.violation('spec', f'the generator script failed (exit {rc}): {err}', replay)
                     continue
+                if r.random() < 0.3:
+                    # the generator is run again over the tree it has written (what a repository mirror does every time)
+                    rc, err = run_script('gen_fast_metamanifest.py' if whole else 'gen_fast_manifest.py', [target])
+                    replay['regenerated'] = True
+                    st['regenerations'] = st.get('regenerations', 0) + 1
+                    if rc != 0:
+                        ctx.violation('spec', f'the generator script failed when run again over its own output (exit {rc}): {err}', replay)
+                        continue
                 files = {p: dd for p, dd, mt in ET.list_real_files(target)}
                 # single directories without ebuilds are written as Manifest.gz: gemato needs to be pointed at it
                 top = 'Manifest' if 'Manifest' in files else ('Manifest.gz' if 'Manifest.gz' in files else None)
